@@ -1024,6 +1024,14 @@ class Ctx:
             a = I.truth(I.eval(e.args[0], fr))
             if a is False:
                 return True
+            if not isinstance(a, bool):
+                # antecedent already false on this path: the consequent may not even be evaluable
+                self.fs.push()
+                self.fs.add(a)
+                dead = self.fs.check() == z3.unsat
+                self.fs.pop()
+                if dead:
+                    return True
             b = I.truth(I.eval(e.args[1], fr))
             return b_implies(a, b)
         if nm == "iff":
@@ -1323,10 +1331,20 @@ class Ctx:
         ev.fields["args"] = PDict([(k, v) for k, v in loc.items()])
         ev.fields["index"] = len(self.trace.items)
         ret = None
+        excs = []
+        if isinstance(desc, api.Raises):
+            excs = desc.excs
+            desc = desc.inner
+        ev.fields["ret"] = None
+        ev.fields["raised"] = None
+        self.trace.items.append(ev)
+        for ex in excs:
+            if self.branch(z3.Bool(self.fresh_label(f"{info.name}.raises.{ex}")), None, free=True):
+                ev.fields["raised"] = ex
+                raise PyRaise(ex, f"raised by mocked {info.qualname}")
         if desc is not None:
             ret, _ = self.make(desc, self.fresh_label(f"ret.{info.name}"))
         ev.fields["ret"] = ret
-        self.trace.items.append(ev)
         self.result.functions.setdefault(key, {
             "file": os.path.relpath(info.module.path, self.world.repo), "span": list(info.span()),
             "sha256": info.sha(), "role": "traced (call recorded, body not executed)"})
@@ -1669,6 +1687,8 @@ class Ctx:
                 if exc_name_matches(ex.exc, en):
                     cond = text
                     break
+            for i, text in enumerate(c.exsures):
+                self.check_clause(text, dict(env), old, f"{c.name}/exsures#{i}", "exsures")
             if cond is None:
                 self.check(False, f"{c.name}/exc:{ex.exc}", "exc",
                            f"undeclared {ex.exc} escapes ({str(ex.msg)[:80]})")
